@@ -165,7 +165,7 @@ class Inliner(object):
     out = []
     for s in stmts:
       out.extend(self._stmt(s, fn, stack, inlined, depth))
-    if _subst_flags(out):
+    if _subst_flags(out) | _move_flags(out, fn):
       inlined.append('<flag>')
     return out
 
@@ -492,6 +492,66 @@ def _subst_flags(block):
         return n
     u.test = S().visit(u.test)
     ast.fix_missing_locations(u)
+    changed = True
+  return changed
+
+
+def _first_evaluated_name(test):
+  """the Name node that is evaluated first (and always) by the test, if the test starts with a plain name."""
+  t = test
+  while True:
+    if isinstance(t, ast.UnaryOp) and isinstance(t.op, ast.Not):
+      t = t.operand
+    elif isinstance(t, ast.BoolOp):
+      t = t.values[0]
+    elif isinstance(t, ast.Compare):
+      t = t.left
+    else:
+      break
+  return t if isinstance(t, ast.Name) else None
+
+
+def _move_flags(block, fn):
+  """x = <expr>           if <expr> ...:
+     if x ...:      ==>
+  when x is read nowhere else and is the first thing the test evaluates: the expression (side effects included) is
+  evaluated once, at the same point of the execution."""
+  changed = False
+  i = 0
+  while i < len(block) - 1:
+    d, u = block[i], block[i + 1]
+    i += 1
+    if not (isinstance(d, ast.Assign) and len(d.targets) == 1 and isinstance(d.targets[0], ast.Name) and isinstance(u, ast.If)):
+      continue
+    name = d.targets[0].id
+    first = _first_evaluated_name(u.test)
+    if first is None or first.id != name:
+      continue
+    if any(isinstance(x, (ast.NamedExpr, ast.Yield, ast.YieldFrom, ast.Await, ast.Lambda)) for x in ast.walk(d.value)):
+      continue
+    if name.startswith('__ret'):
+      loads = sum(1 for st in block for x in ast.walk(st) if isinstance(x, ast.Name) and x.id == name and isinstance(x.ctx, ast.Load))
+    else:
+      top = fn.node
+      while getattr(top, '_parent', None) is not None and not isinstance(top, (ast.FunctionDef, ast.AsyncFunctionDef)):
+        top = top._parent
+      loads = sum(1 for x in ast.walk(fn.node) if isinstance(x, ast.Name) and x.id == name and isinstance(x.ctx, ast.Load))
+      stores = sum(1 for x in ast.walk(fn.node) if isinstance(x, ast.Name) and x.id == name and isinstance(x.ctx, ast.Store))
+      if stores != 1 or name in fn.params:
+        continue
+    if loads != 1:
+      continue
+    val = d.value
+
+    class S(ast.NodeTransformer):
+      def visit_Name(self, n):
+        if n is first:
+          return ast.copy_location(val, n)
+        return n
+    u.test = S().visit(u.test)
+    ast.fix_missing_locations(u)
+    block.pop(i - 1)
+    i -= 1
     changed = True
   return changed
 
